@@ -29,7 +29,6 @@ def canon(ans):
 # (B) failure class (printed by `drv_c13 spec`) -> id of the finding in known_findings.json
 CLASS_TO_FINDING = {
     "panic:ctrl-between-targets": "C13-ctrl-between-targets-panic",
-    "panic:resetall-no-qubits": "C13-resetall-zero-qubits-panic",
     "panic:nested-loop": "C13-nested-loop-header-panic",
     "panic:subbit-out-of-range": "C13-composite-subbit-panic",
     "panic:empty-loop": "C13-zero-width-loop-panic",
@@ -56,8 +55,8 @@ SPEC = {
     "tables": ["LatexGates", "LatexTemplates"],
     "props_module": PROPS_MODULE,
     "required": ["grid_rectangular", "connectors_in_grid_on_partner_partial", "undrawable_is_error", "emitter_templates_as_modelled",
-                 "each_op_once_partial", "wire_order_partial", "column_order_partial", "connector_span_clear_partial",
-                 "printed_iff_drawn", "stage_is_expected_partial",
+                 "each_op_once_partial", "wire_order", "column_order", "connector_span_clear_partial",
+                 "printed_iff_drawn", "stage_is_expected_partial", "stages_are_expected_partial",
                  "neg_ctrl_between_targets_panics", "neg_conditional_composite_overwrites", "neg_barrier_column_reused"],
     "drivers": ["drv_c13"],
     "harness_bin": "c13",
@@ -88,8 +87,9 @@ def run(ctx):
         "condition line of the same stage (C<I>, CC..I, conditional I) may end on that wire; a line ending on any other bare wire is a connector failure. "
         "The theorem connectors_in_grid_on_partner_partial uses the strict reading and excludes I under a control",
         "each_op_once / wire_order / connector_span_clear are proved on the model's matrix with ghost provenance (Cell.prov), for circuits over opOk operations; "
-        "the reference drawing circStages is tied to the independent reader's opItems by stage_is_expected_partial for one-column gates, measure, reset only; "
-        "for Kron/Composite/Loop/conditional/measure_all/reset_all/barrier that agreement is evaluated by (B) on every generated case",
+        "the reference drawing circStages is tied to the independent reader's opItems by stages_are_expected_partial (all opOk operations incl. Kron/Composite/Loop, "
+        "except reset_all and barrier whose stages the reader groups differently) and stage_is_expected_partial; that the reader's executable left-to-right matching "
+        "accepts the printed text, the loop braces of the header line, reset_all/barrier grouping and multi-qubit block gates are evaluated by (B) on every generated case",
         "(B) class tags: connector/span failures are attributed to the operation that drew the cell by the model's provenance (the model is tied to the code by (A)); "
         "a matching failure at operation k is attributed to the first operation of a known defective shape (multistage-in-range, kron-in-range, empty-loop-body) "
         "at or before k, because the left-to-right matching is unreliable after such an operation; a panic is attributed to the operation at which the model panics. "
